@@ -451,7 +451,7 @@ func genRawShapes(t *rapid.T) *Case { // C16: call shapes on the server end
 }
 
 func genRawIDs(t *rapid.T) *Case { // C08: id histories
-	c := genRawClientWith(t, []string{"id_reuse", "id_backwards", "negative_id_later", "frame_unknown_id", "frames_after_cancel", "cancel_mid", "data_after_half_close", "dup_frame"}, rapid.IntRange(1, 3).Draw(t, "ndev"))
+	c := genRawClientWith(t, []string{"id_reuse", "id_backwards", "negative_id_later", "frame_unknown_id", "frames_after_cancel", "cancel_mid", "data_after_half_close", "dup_frame", "id_max"}, rapid.IntRange(1, 3).Draw(t, "ndev"))
 	c.Prop = "raw_ids"
 	if c.Cfg.Dir == "fwd" && rapid.IntRange(0, 1).Draw(t, "shutdown") == 0 { // (InitiateShutdown is the forward tunnels' shutdown)
 		// the server starts draining somewhere inside the conversation: refused ids count as seen and finished
